@@ -197,10 +197,21 @@ pub(super) fn conv_layer_check(batch: usize, depth: usize, rows: usize, cols: us
 
 /// C15: mse = (target - output)^2 / element count; cross_entropy = -target*ln(output) / leading dim
 pub(super) fn cost_check(dims: &[usize]) {
+    cost_check_bt(dims, dims);
+}
+/// `tdims`: dimensions of the target (may be broadcast against the output)
+pub(super) fn cost_check_bt(dims: &[usize], tdims: &[usize]) {
     let n = numel(dims);
     let ov = sym_vec(n, sym_ppow2);
-    let tv = sym_vec(n, sym_val);
-    let (o, t) = (mk(dims, ov.clone()), mk(dims, tv.clone()));
+    let tsmall = sym_vec(numel(tdims), sym_val);
+    let mut tv: Vec<Float> = Vec::with_capacity(n);
+    let mut e = 0;
+    while e < n {
+        let oi = unravel(e, dims);
+        tv.push(tsmall[bcast_src(&oi, dims, tdims)]);
+        e += 1;
+    }
+    let (o, t) = (mk(dims, ov.clone()), mk(tdims, tsmall.clone()));
     let m = (cost::mse())(&o, &t);
     let c = (cost::cross_entropy())(&o, &t);
     assert!(dims_eq(&m.dimensions, dims) && dims_eq(&c.dimensions, dims), "C15 costs keep the dimensions");
@@ -330,6 +341,9 @@ macro_rules! conv_layer_instance {
     ($name:ident, $unwind:expr, $batch:expr, $d:expr, $r:expr, $c:expr, $cnt:expr, $fr:expr, $fc:expr, $sr:expr, $sc:expr, $act:expr) => {
         vk_harness!($name, $unwind, { conv_layer_check($batch, $d, $r, $c, $cnt, $fr, $fc, $sr, $sc, $act); });
     };
+}
+macro_rules! cost_bt_instance {
+    ($name:ident, $unwind:expr, [$($d:expr),*], [$($t:expr),*]) => { vk_harness!($name, $unwind, { cost_check_bt(&[$($d),*], &[$($t),*]); }); };
 }
 macro_rules! cost_instance {
     ($name:ident, $unwind:expr, [$($d:expr),*]) => { vk_harness!($name, $unwind, { cost_check(&[$($d),*]); }); };
